@@ -10,6 +10,7 @@
 package c07
 
 import (
+	"context"
 	"database/sql"
 	"encoding/json"
 	"errors"
@@ -24,7 +25,9 @@ import (
 	"time"
 
 	"gorm.io/gorm"
+	"gorm.io/gorm/clause"
 	"gorm.io/gorm/logger"
+	"gorm.io/gorm/schema"
 	"pgregory.net/rapid"
 
 	"verif/internal/evid"
@@ -60,7 +63,13 @@ type Op struct {
 	Sub    []Op   `json:"sub,omitempty"`    // body of a transaction block
 	Commit bool   `json:"commit,omitempty"` // transaction block: commit or roll back
 	Y      bool   `json:"y,omitempty"`      // runtime.Gosched() before the operation
+	S      int    `json:"s,omitempty"`      // bit mask of per-call Session options (sessOptNames)
 }
+
+// per-call session options: the operation runs on db.Session(&gorm.Session{...}) derived for the call
+var sessOptNames = []string{"SkipHooks", "QueryFields", "FullSaveAssociations", "NewDB", "Context", "SkipDefaultTransaction", "DryRun", "CreateBatchSize", "Debug"}
+
+func isBlock(k string) bool { return k == "tx" || k == "conn" || k == "mtx" }
 
 func (o Op) String() string {
 	var b strings.Builder
@@ -68,7 +77,16 @@ func (o Op) String() string {
 		b.WriteByte('~')
 	}
 	b.WriteString(o.K)
-	if o.K == "tx" {
+	if o.S != 0 {
+		var names []string
+		for i, n := range sessOptNames {
+			if o.S&(1<<i) != 0 {
+				names = append(names, n)
+			}
+		}
+		b.WriteString("[" + strings.Join(names, "+") + "]")
+	}
+	if isBlock(o.K) {
 		parts := make([]string, len(o.Sub))
 		for i, s := range o.Sub {
 			parts[i] = s.String()
@@ -105,6 +123,8 @@ type Case struct {
 	SkipTx   bool   `json:"skip_tx"`            // Config.SkipDefaultTransaction
 	Procs    int    `json:"procs"`              // GOMAXPROCS during the concurrent run (0 = unchanged)
 	MaxOpen  int    `json:"max_open"`           // SetMaxOpenConns of the pool (0 = unbounded)
+	Cfg      []string `json:"cfg,omitempty"`    // gorm.Config switches / dialector / logger / plugin (cfgNames)
+	Root     string `json:"root,omitempty"`     // the shared handle: "" = the handle gorm.Open returned, or one derived from it before the barrier (rootNames)
 	Programs [][]Op `json:"programs"`
 }
 
@@ -119,6 +139,12 @@ func (c *Case) String() string {
 		b.WriteString(" session-prepare=per-" + c.Sess)
 	}
 	fmt.Fprintf(&b, " skiptx=%v procs=%d maxopen=%d", c.SkipTx, c.Procs, c.MaxOpen)
+	if len(c.Cfg) > 0 {
+		b.WriteString(" cfg=" + strings.Join(c.Cfg, "+"))
+	}
+	if c.Root != "" {
+		b.WriteString(" shared-handle=" + c.Root)
+	}
 	for g, p := range c.Programs {
 		parts := make([]string, len(p))
 		for i, o := range p {
@@ -170,12 +196,12 @@ var assocWriteKinds = map[string]bool{"aappend": true, "areplace": true, "adelet
 var phaseAKinds = []string{"create", "batch", "save", "tree", "tree", "find", "first", "count", "pluck", "preload", "preload", "joins", "afind", "acount", "update", "updates", "delete", "delrange"}
 
 func isPhaseAOp(o Op) bool {
-	return o.K != "tx" && family(o.M) == 2 && !assocWriteKinds[o.K]
+	return !isBlock(o.K) && family(o.M) == 2 && !assocWriteKinds[o.K]
 }
 
 func touchesFamily(p []Op, f int) bool {
 	for _, o := range p {
-		if o.K == "tx" {
+		if isBlock(o.K) {
 			if touchesFamily(o.Sub, f) {
 				return true
 			}
@@ -262,6 +288,12 @@ var (
 	// column names as arguments (Select, Omit, Updates map keys, Where map keys, Pluck) in varied
 	// spellings: database name, field name, lowerCamel, UPPER_SNAKE, Title_Snake
 	spellKinds = []string{"spell", "spell", "spell"}
+	// further finishers, chain methods, clauses and value forms
+	moreKinds = []string{"take", "last", "findbatches", "firstorinit", "firstorcreate", "updcol", "rawscan", "exec", "row", "rows", "createmap", "createbatches", "wherestruct", "tosql", "updret", "delret", "scopes", "mig", "query", "set", "onconflict", "lite", "unscoped"}
+	// operations that may run on a per-call Session with options
+	sessKinds = map[string]bool{"create": true, "batch": true, "find": true, "first": true, "count": true, "pluck": true, "update": true, "updates": true, "save": true, "delete": true, "tree": true, "preload": true}
+	cfgNames  = []string{"queryfields", "batchsize", "fullsave", "translate", "propagate", "logger", "replacer", "noreturning", "plugin"}
+	rootNames = []string{"session", "ctx", "newdb", "cond"}
 	spellUses  = []string{"select-find", "select-updates", "omit-updates", "map-updates", "where-map", "pluck", "omit-create"}
 )
 
@@ -294,15 +326,26 @@ func genOp(t *rapid.T, pal palette, depth int) Op {
 	kinds := append([]string(nil), simpleKinds...)
 	kinds = append(kinds, badKinds...)
 	kinds = append(kinds, spellKinds...)
+	kinds = append(kinds, moreKinds...)
 	if pal.f1 || pal.f2 {
 		kinds = append(kinds, relKinds...)
+		kinds = append(kinds, "delassoc")
 	}
 	if depth < 2 {
-		kinds = append(kinds, "tx", "tx")
+		kinds = append(kinds, "tx", "tx", "tx", "mtx")
+	}
+	if depth == 0 {
+		kinds = append(kinds, "conn") // db.Connection on a tx handle would ask the pool for a second connection
 	}
 	o := Op{K: rapid.SampledFrom(kinds).Draw(t, "kind")}
 	o.Y = rapid.IntRange(0, 3).Draw(t, "yield") == 0
-	if o.K == "tx" {
+	if sessKinds[o.K] && rapid.IntRange(0, 3).Draw(t, "sessopt") == 0 {
+		o.S = 1 << rapid.IntRange(0, len(sessOptNames)-1).Draw(t, "opt1")
+		if rapid.Bool().Draw(t, "two") {
+			o.S |= 1 << rapid.IntRange(0, len(sessOptNames)-1).Draw(t, "opt2")
+		}
+	}
+	if isBlock(o.K) {
 		n := rapid.IntRange(1, 3).Draw(t, "txlen")
 		for i := 0; i < n; i++ {
 			o.Sub = append(o.Sub, genOp(t, pal, depth+1))
@@ -326,6 +369,12 @@ func fillOp(t *rapid.T, o *Op, pal palette) {
 		o.M = rapid.SampledFrom(pal.models()).Draw(t, "model")
 		o.B = rapid.IntRange(0, len(spellUses)-1).Draw(t, "use")
 		o.V = rapid.IntRange(0, 99).Draw(t, "columnAndSpelling")
+	case "lite":
+		o.M = mGadget
+	case "unscoped":
+		o.M = mWidget
+	case "delassoc":
+		o.M = rapid.SampledFrom(pal.pick([]int{mAuthor, mAuthor}, parcelOwners)).Draw(t, "owner")
 	case "tree":
 		o.M = rapid.SampledFrom(pal.pick([]int{mAuthor, mAuthor}, parcelOwners)).Draw(t, "owner")
 		o.B = rapid.IntRange(1, nKeys).Draw(t, "b")
@@ -348,8 +397,13 @@ func fillOp(t *rapid.T, o *Op, pal palette) {
 		o.M = rapid.SampledFrom(pal.pick([]int{mAuthor, mAuthor, mAuthor, mBook, mCompany}, parcelOwners)).Draw(t, "owner")
 		o.R = rapid.SampledFrom(assocRels[o.M]).Draw(t, "rel")
 		o.B = rapid.IntRange(1, nKeys).Draw(t, "b")
+		o.A = rapid.IntRange(1, 3).Draw(t, "ownerKey") // keys 1 and 2 are seeded: the owner mostly exists
 	default:
 		o.M = rapid.SampledFrom(pal.models()).Draw(t, "model")
+		switch o.K {
+		case "first", "take", "row", "update", "updcol", "exec", "delete":
+			o.A = rapid.IntRange(1, 4).Draw(t, "likelyKey") // single-row operations mostly hit a row
+		}
 		if o.K == "create" && o.M == mAuthor {
 			o.B = rapid.IntRange(0, nKeys).Draw(t, "company")
 		}
@@ -416,6 +470,14 @@ func genCase(t *rapid.T) *Case {
 	c.SkipTx = rapid.Bool().Draw(t, "skipTx")
 	c.Procs = rapid.SampledFrom([]int{0, 0, 1, 2, 4}).Draw(t, "procs")
 	c.MaxOpen = rapid.SampledFrom([]int{0, 0, 0, 1, 2, 4}).Draw(t, "maxOpen")
+	for _, n := range cfgNames {
+		if rapid.IntRange(0, 4).Draw(t, "cfg:"+n) == 0 {
+			c.Cfg = append(c.Cfg, n)
+		}
+	}
+	if rapid.IntRange(0, 2).Draw(t, "derivedRoot") == 0 {
+		c.Root = rapid.SampledFrom(rootNames).Draw(t, "root")
+	}
 	if (c.Prepare || c.Sess != "") && c.MaxOpen > 0 && harness.OpenClass("C07", classBoundedPool) {
 		// listed finding: PrepareStmt on a bounded pool can deadlock (a transaction that holds the last
 		// connection waits for a preparation that waits for a connection); keep the pool unbounded
@@ -505,7 +567,7 @@ func build(m, g, a, b, v int) interface{} {
 	case mTag:
 		return &Tag{ID: id, Label: fmt.Sprintf("l%d", v)}
 	case mGadget:
-		return &Gadget{ID: id, Name: fmt.Sprintf("g%d", v), Qty: v}
+		return &Gadget{ID: id, Name: fmt.Sprintf("g%d", v), Qty: v, Labels: []string{"x", fmt.Sprint(v)}[:1+v%2], Level: Level(v % 4), Spec: Spec{Color: []string{"", "red", "blue"}[v%3], Size: v}}
 	case mWidget:
 		return &Widget{ID: id, Code: fmt.Sprintf("w%d", v), Weight: float64(v) / 2}
 	case mParcel:
@@ -686,6 +748,9 @@ func exec(db *gorm.DB, g int, o Op) string {
 	if o.Y {
 		runtime.Gosched()
 	}
+	if o.S != 0 {
+		db = applySessionOptions(db, o.S)
+	}
 	switch o.K {
 	case "create", "save":
 		v := build(o.M, g, o.A, o.B, o.V)
@@ -697,7 +762,11 @@ func exec(db *gorm.DB, g int, o Op) string {
 		}
 		return fmt.Sprintf("%s ra=%d %s", errText(r.Error), r.RowsAffected, render(v))
 	case "batch":
-		v := buildSlice(o.M, g, []int{o.A, 1 + o.A%nKeys}, o.V)
+		keys := make([]int, 2+o.V%5) // 2..6 rows (up to 6x9 bind variables in one statement), keys 3..8
+		for i := range keys {
+			keys[i] = 3 + (o.A-1+i)%(nKeys-2)
+		}
+		v := buildSlice(o.M, g, keys, o.V)
 		r := db.Create(v)
 		return fmt.Sprintf("%s ra=%d %s", errText(r.Error), r.RowsAffected, render(v))
 	case "spell":
@@ -829,6 +898,219 @@ func exec(db *gorm.DB, g int, o Op) string {
 	case "delrange":
 		r := inRange(db, o.M, g).Where(modelTables[o.M]+".id >= ?", keyOf(g, o.A)).Delete(newModel(o.M))
 		return fmt.Sprintf("%s ra=%d", errText(r.Error), r.RowsAffected)
+	case "conn":
+		var inner []string
+		err := db.Connection(func(tx *gorm.DB) error {
+			// the callback's handle keeps one Statement for all calls made on it (it is not a
+			// fresh-statement handle like the one of Transaction): derive one that is
+			h := tx.Session(&gorm.Session{NewDB: true})
+			for _, s := range o.Sub {
+				inner = append(inner, exec(h, g, s))
+			}
+			return nil
+		})
+		return fmt.Sprintf("conn %s {%s}", errText(err), strings.Join(inner, " ; "))
+	case "mtx":
+		// the manual form: Begin, SavePoint after the first operation, RollbackTo before the end
+		// (when rolling back), Commit
+		tx := db.Begin()
+		if tx.Error != nil {
+			return "mtx begin " + errText(tx.Error)
+		}
+		var inner []string
+		for i, s := range o.Sub {
+			inner = append(inner, exec(tx, g, s))
+			if i == 0 {
+				inner = append(inner, "savepoint "+errText(tx.SavePoint("c07sp").Error))
+			}
+		}
+		if !o.Commit {
+			inner = append(inner, "rollbackto "+errText(tx.RollbackTo("c07sp").Error))
+		}
+		return fmt.Sprintf("mtx {%s} commit %s", strings.Join(inner, " ; "), errText(tx.Commit().Error))
+	case "take":
+		out := newModel(o.M)
+		r := db.Take(out, keyOf(g, o.A))
+		return fmt.Sprintf("%s ra=%d %s", errText(r.Error), r.RowsAffected, render(out))
+	case "last":
+		out := newModel(o.M)
+		r := inRange(db, o.M, g).Last(out)
+		return fmt.Sprintf("%s ra=%d %s", errText(r.Error), r.RowsAffected, render(out))
+	case "findbatches":
+		out := newSlice(o.M)
+		var batches []string
+		r := inRange(db, o.M, g).FindInBatches(out, 2, func(tx *gorm.DB, batch int) error {
+			batches = append(batches, fmt.Sprintf("#%d ra=%d %s", batch, tx.RowsAffected, render(out)))
+			return nil
+		})
+		return fmt.Sprintf("%s ra=%d %s", errText(r.Error), r.RowsAffected, strings.Join(batches, " "))
+	case "firstorinit":
+		out := newModel(o.M)
+		r := db.Where(map[string]interface{}{"id": keyOf(g, o.A)}).Attrs(build(o.M, g, o.A, 0, o.V)).FirstOrInit(out)
+		return fmt.Sprintf("%s ra=%d %s", errText(r.Error), r.RowsAffected, render(out))
+	case "firstorcreate":
+		out := newModel(o.M)
+		q := db.Where(map[string]interface{}{"id": keyOf(g, o.A)}).Attrs(build(o.M, g, o.A, 0, o.V))
+		if o.V%2 == 1 {
+			q = q.Assign(changes(o.M, o.V))
+		}
+		r := q.FirstOrCreate(out)
+		return fmt.Sprintf("%s ra=%d %s", errText(r.Error), r.RowsAffected, render(out))
+	case "updcol":
+		col := firstColumn(o.M)
+		var r *gorm.DB
+		if o.V%2 == 0 {
+			r = db.Model(build(o.M, g, o.A, 0, 0)).UpdateColumn(col, changes(o.M, o.V)[col])
+		} else {
+			r = db.Model(build(o.M, g, o.A, 0, 0)).UpdateColumns(changes(o.M, o.V))
+		}
+		return fmt.Sprintf("%s ra=%d", errText(r.Error), r.RowsAffected)
+	case "rawscan":
+		var out []GadgetLite // first use of a type as destination of a raw query
+		r := db.Raw(fmt.Sprintf("SELECT id, CAST(%s AS text) AS name FROM %s WHERE id BETWEEN ? AND ? ORDER BY id", firstColumn(o.M), modelTables[o.M]), keyOf(g, 0), keyOf(g, rangeSize-1)).Scan(&out)
+		return fmt.Sprintf("%s ra=%d %s", errText(r.Error), r.RowsAffected, render(&out))
+	case "exec":
+		col := firstColumn(o.M)
+		r := db.Exec(fmt.Sprintf("UPDATE %s SET %s = ? WHERE id = ?", modelTables[o.M], col), changes(o.M, o.V)[col], keyOf(g, o.A))
+		return fmt.Sprintf("%s ra=%d", errText(r.Error), r.RowsAffected)
+	case "row":
+		var v sql.NullString
+		err := db.Model(newModel(o.M)).Select(firstColumn(o.M)).Where("id = ?", keyOf(g, o.A)).Row().Scan(&v)
+		return fmt.Sprintf("%s %v", errText(err), v)
+	case "rows":
+		rows, err := inRange(db.Model(newModel(o.M)), o.M, g).Order(modelTables[o.M] + ".id").Rows()
+		if err != nil {
+			return errText(err)
+		}
+		var got []string
+		for rows.Next() {
+			one := newModel(o.M)
+			if err := db.ScanRows(rows, one); err != nil {
+				got = append(got, errText(err))
+				break
+			}
+			got = append(got, render(one))
+		}
+		err = rows.Err()
+		_ = rows.Close()
+		return fmt.Sprintf("%s %v", errText(err), got)
+	case "createmap":
+		col := firstColumn(o.M)
+		var r *gorm.DB
+		if o.V%2 == 0 {
+			r = db.Model(newModel(o.M)).Create(map[string]interface{}{"id": keyOf(g, o.A), col: changes(o.M, o.V)[col]})
+		} else {
+			r = db.Model(newModel(o.M)).Create([]map[string]interface{}{
+				{"id": keyOf(g, o.A), col: changes(o.M, o.V)[col]},
+				{"id": keyOf(g, 1+o.A%nKeys), col: changes(o.M, o.V+1)[col]},
+			})
+		}
+		return fmt.Sprintf("%s ra=%d", errText(r.Error), r.RowsAffected)
+	case "createbatches":
+		n := 3 + o.V%4
+		keys := make([]int, n)
+		for i := range keys {
+			keys[i] = 3 + (o.A-1+i)%(nKeys-2)
+		}
+		v := buildSlice(o.M, g, keys, o.V)
+		r := db.CreateInBatches(v, 3)
+		return fmt.Sprintf("%s ra=%d %s", errText(r.Error), r.RowsAffected, render(v))
+	case "wherestruct":
+		out := newSlice(o.M)
+		var cond interface{}
+		if o.M == mGadget {
+			cond = &GadgetFilter{Name: fmt.Sprintf("g%d", o.V), Qty: o.V} // a type used as condition only
+		} else {
+			cond = build(o.M, g, o.A, 0, o.V)
+		}
+		r := inRange(db, o.M, g).Where(cond).Order(modelTables[o.M] + ".id").Find(out)
+		return fmt.Sprintf("%s ra=%d %s", errText(r.Error), r.RowsAffected, render(out))
+	case "lite":
+		var out []GadgetLite
+		r := inRange(db.Model(&Gadget{}), mGadget, g).Order("gadgets.id").Find(&out)
+		return fmt.Sprintf("%s ra=%d %s", errText(r.Error), r.RowsAffected, render(&out))
+	case "tosql":
+		col := firstColumn(o.M)
+		text := db.ToSQL(func(tx *gorm.DB) *gorm.DB {
+			return inRange(tx.Model(newModel(o.M)), o.M, g).Where(col+" = ?", changes(o.M, o.V)[col]).Limit(3).Find(newSlice(o.M))
+		})
+		return "ok " + text
+	case "updret", "delret":
+		out := newSlice(o.M)
+		q := inRange(db.Model(out), o.M, g).Clauses(clause.Returning{}).Where(modelTables[o.M]+".id >= ?", keyOf(g, o.A))
+		var r *gorm.DB
+		if o.K == "updret" {
+			r = q.Updates(changes(o.M, o.V))
+		} else {
+			r = q.Delete(out)
+		}
+		return fmt.Sprintf("%s ra=%d %s", errText(r.Error), r.RowsAffected, renderSorted(out))
+	case "unscoped":
+		if o.V%2 == 0 {
+			var out []Widget
+			r := inRange(db.Unscoped(), mWidget, g).Order("widgets.id").Find(&out)
+			return fmt.Sprintf("%s ra=%d %s", errText(r.Error), r.RowsAffected, render(&out))
+		}
+		r := db.Unscoped().Delete(&Widget{}, keyOf(g, o.A))
+		return fmt.Sprintf("%s ra=%d", errText(r.Error), r.RowsAffected)
+	case "scopes":
+		out := newSlice(o.M)
+		r := db.Scopes(
+			func(tx *gorm.DB) *gorm.DB { return inRange(tx, o.M, g) },
+			func(tx *gorm.DB) *gorm.DB { return tx.Order(modelTables[o.M] + ".id desc").Limit(3) },
+		).Find(out)
+		return fmt.Sprintf("%s ra=%d %s", errText(r.Error), r.RowsAffected, render(out))
+	case "mig":
+		switch o.V % 3 {
+		case 0:
+			return fmt.Sprintf("ok hastable=%v", db.Migrator().HasTable(newModel(o.M)))
+		case 1:
+			return fmt.Sprintf("ok hascolumn=%v", db.Migrator().HasColumn(newModel(o.M), firstColumn(o.M)))
+		}
+		if family(o.M) != 0 {
+			return fmt.Sprintf("ok hastable=%v", db.Migrator().HasTable(modelTables[o.M]))
+		}
+		// a second schema instance of the type, cached under the table's name
+		return fmt.Sprintf("ok hascolumn=%v", db.Table(modelTables[o.M]).Migrator().HasColumn(newModel(o.M), "id"))
+	case "query":
+		col := firstColumn(o.M)
+		tb := modelTables[o.M]
+		switch o.V % 3 {
+		case 0:
+			out := newSlice(o.M)
+			r := inRange(db, o.M, g).Where(db.Not(tb+"."+col+" = ?", changes(o.M, o.V)[col]).Or(tb+".id = ?", keyOf(g, o.A))).Order(tb + ".id").Find(out)
+			return fmt.Sprintf("%s ra=%d %s", errText(r.Error), r.RowsAffected, render(out))
+		case 1:
+			out := newSlice(o.M)
+			r := inRange(db, o.M, g).Distinct().Order(tb + ".id").Limit(3).Offset(1).Find(out)
+			return fmt.Sprintf("%s ra=%d %s", errText(r.Error), r.RowsAffected, render(out))
+		}
+		var out []map[string]interface{}
+		r := inRange(db.Model(newModel(o.M)), o.M, g).Select("CAST(" + col + " AS text) AS v, count(*) AS n").Group(col).Having("count(*) > ?", 0).Order("v").Find(&out)
+		parts := make([]string, len(out))
+		for i, m := range out {
+			parts[i] = fmt.Sprintf("%v:%v", m["v"], m["n"])
+		}
+		return fmt.Sprintf("%s ra=%d %v", errText(r.Error), r.RowsAffected, parts)
+	case "set":
+		h := db.Set("c07:setting", o.V).InstanceSet("c07:instance", g)
+		a, okA := h.Get("c07:setting")
+		b, okB := h.InstanceGet("c07:instance")
+		out := newSlice(o.M)
+		r := inRange(h, o.M, g).Order(modelTables[o.M] + ".id").Find(out)
+		c, okC := r.Get("c07:setting")
+		return fmt.Sprintf("%s ra=%d %s set=%v/%v instance=%v/%v after=%v/%v", errText(r.Error), r.RowsAffected, render(out), a, okA, b, okB, c, okC)
+	case "onconflict":
+		v := build(o.M, g, o.A, 0, o.V)
+		oc := clause.OnConflict{DoNothing: true}
+		if o.V%2 == 1 {
+			oc = clause.OnConflict{Columns: []clause.Column{{Name: "id"}}, UpdateAll: true}
+		}
+		r := db.Clauses(oc).Create(v)
+		return fmt.Sprintf("%s ra=%d %s", errText(r.Error), r.RowsAffected, render(v))
+	case "delassoc":
+		r := db.Select(clause.Associations).Delete(build(o.M, g, o.A, 0, 0))
+		return fmt.Sprintf("%s ra=%d", errText(r.Error), r.RowsAffected)
 	case "tx":
 		var inner []string
 		err := db.Transaction(func(tx *gorm.DB) error {
@@ -870,6 +1152,85 @@ func exec(db *gorm.DB, g int, o Op) string {
 	panic("harness: unknown operation kind " + o.K)
 }
 
+type ctxKey struct{}
+
+func applySessionOptions(db *gorm.DB, mask int) *gorm.DB {
+	s := &gorm.Session{}
+	debug := false
+	for i, n := range sessOptNames {
+		if mask&(1<<i) == 0 {
+			continue
+		}
+		switch n {
+		case "SkipHooks":
+			s.SkipHooks = true
+		case "QueryFields":
+			s.QueryFields = true
+		case "FullSaveAssociations":
+			s.FullSaveAssociations = true
+		case "NewDB":
+			s.NewDB = true
+		case "Context":
+			s.Context = context.WithValue(context.Background(), ctxKey{}, 1)
+		case "SkipDefaultTransaction":
+			s.SkipDefaultTransaction = true
+		case "DryRun":
+			s.DryRun = true
+		case "CreateBatchSize":
+			s.CreateBatchSize = 3
+		case "Debug":
+			debug = true
+		}
+	}
+	db = db.Session(s)
+	if debug {
+		db = db.Debug()
+	}
+	return db
+}
+
+// countingWriter is the logger's output: it formats nothing and keeps nothing.
+type countingWriter struct{ n int64 }
+
+func (w *countingWriter) Printf(string, ...interface{}) { atomic.AddInt64(&w.n, 1) }
+
+// plugin registers callbacks in every processor; they run inside every operation of every goroutine.
+type plugin struct{ calls int64 }
+
+func (p *plugin) Name() string { return "c07plugin" }
+
+func (p *plugin) Initialize(db *gorm.DB) error {
+	hit := func(tx *gorm.DB) {
+		atomic.AddInt64(&p.calls, 1)
+		tx.Statement.Settings.Store("c07:plugin", true)
+	}
+	cb := db.Callback()
+	for _, err := range []error{
+		cb.Create().Before("gorm:create").Register("c07:before_create", hit),
+		cb.Query().After("gorm:query").Register("c07:after_query", hit),
+		cb.Update().Before("gorm:update").Register("c07:before_update", hit),
+		cb.Delete().After("gorm:delete").Register("c07:after_delete", hit),
+		cb.Row().Before("gorm:row").Register("c07:before_row", hit),
+		cb.Raw().Before("gorm:raw").Register("c07:before_raw", hit),
+		cb.Query().Match(func(*gorm.DB) bool { return true }).Register("c07:matched", hit),
+		cb.Query().Match(func(*gorm.DB) bool { return false }).Register("c07:unmatched", func(*gorm.DB) { panic("c07: unmatched callback ran") }),
+	} {
+		if err != nil {
+			return err
+		}
+	}
+	return nil
+}
+
+func (c *Case) has(cfg string) bool {
+	for _, n := range c.Cfg {
+		if n == cfg {
+			return true
+		}
+	}
+	return false
+}
+
 // renderSorted renders a slice result whose order the query does not define.
 func renderSorted(slicePtr interface{}) string {
 	rv := reflect.ValueOf(slicePtr).Elem()
@@ -883,8 +1244,9 @@ func renderSorted(slicePtr interface{}) string {
 // ---- running a case ---------------------------------------------------------------------------------
 
 type caseDB struct {
-	*gorm.DB
-	mem *memDB
+	*gorm.DB          // the handle gorm.Open returned (warm-up, witnesses)
+	shared   *gorm.DB // the handle the goroutines share
+	mem      *memDB
 }
 
 func openCase(c *Case) *caseDB {
@@ -897,17 +1259,46 @@ func openCase(c *Case) *caseDB {
 	}
 	seed(mem.SQL, c.G)
 	now := testdb.FixedNow
-	db, err := gorm.Open(vdialect.NewSQLite(mem.SQL, false), &gorm.Config{
+	cfg := &gorm.Config{
 		PrepareStmt:            c.Prepare,
 		SkipDefaultTransaction: c.SkipTx,
 		Logger:                 logger.Discard,
 		NowFunc:                func() time.Time { return now },
-	})
+		QueryFields:            c.has("queryfields"),
+		FullSaveAssociations:   c.has("fullsave"),
+		TranslateError:         c.has("translate"),
+		PropagateUnscoped:      c.has("propagate"),
+	}
+	if c.has("batchsize") {
+		cfg.CreateBatchSize = 2
+	}
+	if c.has("logger") {
+		cfg.Logger = logger.New(&countingWriter{}, logger.Config{LogLevel: logger.Info, IgnoreRecordNotFoundError: false})
+	}
+	if c.has("replacer") {
+		cfg.NamingStrategy = schema.NamingStrategy{IdentifierMaxLength: 64, NameReplacer: strings.NewReplacer("Qzx", "qzx")}
+	}
+	db, err := gorm.Open(vdialect.NewSQLite(mem.SQL, c.has("noreturning")), cfg)
+	if err == nil && c.has("plugin") {
+		err = db.Use(&plugin{})
+	}
 	if err != nil {
 		mem.Close()
 		panic("harness: gorm.Open: " + err.Error())
 	}
-	return &caseDB{DB: db, mem: mem}
+	d := &caseDB{DB: db, mem: mem, shared: db}
+	// the handle all goroutines share may be one derived from the opened handle before the barrier
+	switch c.Root {
+	case "session":
+		d.shared = db.Session(&gorm.Session{})
+	case "ctx":
+		d.shared = db.WithContext(context.WithValue(context.Background(), ctxKey{}, 2))
+	case "newdb":
+		d.shared = db.Session(&gorm.Session{NewDB: true, SkipHooks: false})
+	case "cond":
+		d.shared = db.Where("1 = 1").Session(&gorm.Session{})
+	}
+	return d
 }
 
 func (d *caseDB) Close() { d.mem.Close() }
@@ -929,7 +1320,7 @@ func seed(db *sql.DB, G int) {
 		add("reviews", "(%d,4,%d),(%d,2,%d)", k1, k1, k2, k1)
 		add("tags", "(%d,'seedl1'),(%d,'seedl2')", k1, k2)
 		add("author_tags", "(%d,%d),(%d,%d)", k1, k1, k1, k2)
-		add("gadgets", "(%d,'seedg1',1),(%d,'seedg2',2)", k1, k2)
+		add("gadgets", "(%d,'seedg1',1,'[\"s\"]','L1','red',1,'2031-07-05 11:12:13+00:00','2031-07-05 11:12:13+00:00'),(%d,'seedg2',2,NULL,'L2','',2,'2031-07-05 11:12:13+00:00','2031-07-05 11:12:13+00:00')", k1, k2)
 		add("widgets", "(%d,'seedw1',1.5,NULL),(%d,'seedw2',2.5,NULL)", k1, k2)
 		add("parcels", "(%d,'seedp1',5,%d,%d,%d,%d),(%d,'seedp2',6,%d,%d,NULL,NULL)", k1, k1, k1, k1, k1, k2, k1, k2)
 		for _, tb := range []string{"depots", "couriers", "customs", "sorters"} {
@@ -1109,7 +1500,7 @@ func runConcurrent(c *Case) outcome {
 			go func(g, lo, hi int) {
 				defer wg.Done()
 				<-start
-				runProgram(c, d.DB, g, c.Programs[g][lo:hi], out.results[g][lo:hi])
+				runProgram(c, d.shared, g, c.Programs[g][lo:hi], out.results[g][lo:hi])
 			}(g, lo, hi)
 		}
 		close(start)
@@ -1190,7 +1581,7 @@ func runSerial(c *Case) outcome {
 			d.betweenPhases(c, pi)
 			for g := 0; g < c.G; g++ {
 				lo, hi := slice(c.Programs[g], ph)
-				runProgram(c, d.DB, g, c.Programs[g][lo:hi], out.results[g][lo:hi])
+				runProgram(c, d.shared, g, c.Programs[g][lo:hi], out.results[g][lo:hi])
 			}
 		}
 	}()
@@ -1244,12 +1635,34 @@ func check(c *Case) string {
 	conc := runConcurrent(c)
 	races := raceReports() - before
 	if conc.stalled != "" {
-		return "deadlock - no operation of any goroutine finished for " + stallLimit.String() + " (the pool was then closed to end the goroutines)\n" + conc.stalled
+		return "deadlock - no operation of any goroutine finished for " + stallLimit.String() + " (the pool was then closed to end the goroutines)" + panicsOf(c, conc) + "\n" + conc.stalled
 	}
 	ser := runSerial(c)
 	if ser.stalled != "" {
-		return "the programs do not finish even one after the other: no operation finished for " + stallLimit.String() + " in the serial run\n" + ser.stalled
+		return "the programs do not finish even one after the other: no operation finished for " + stallLimit.String() + " in the serial run" + panicsOf(c, ser) + "\n" + ser.stalled
 	}
+	if p := panicsOf(c, ser); p != "" {
+		// a panic that also happens alone is not a C07 matter (the results still have to be equal), but
+		// it must not go unseen: an operation that always panics tests nothing
+		evid.Class("result:panic-also-alone")
+		if os.Getenv("VERIF_C07_SHOW_PANICS") != "" {
+			fmt.Println("panic in the serial run:", p)
+		}
+	}
+	errs, total := 0, 0
+	for g := range ser.results {
+		for i, r := range ser.results[g] {
+			total++
+			if strings.Contains(r, "err=") {
+				errs++
+				if k := c.Programs[g][i].K; !isBlock(k) {
+					evid.AddExtra("error_results_alone:"+k, 1)
+				}
+			}
+		}
+	}
+	evid.AddExtra("operations_run_per_side", int64(total))
+	evid.AddExtra("operations_with_an_error_result_alone", int64(errs))
 	var bad []string
 	if races > 0 {
 		bad = append(bad, fmt.Sprintf("the race detector reported %d data race(s) while the goroutines of this case ran (reports: stderr, above)", races))
@@ -1258,6 +1671,23 @@ func check(c *Case) string {
 		bad = append(bad, "results differ from the same programs run one after the other:\n  "+d)
 	}
 	return strings.Join(bad, "\n")
+}
+
+// panicsOf lists the operations that ended in a (recovered) panic: a panic inside an operation
+// that had begun its default transaction leaves that transaction open, which later shows as a stall.
+func panicsOf(c *Case, o outcome) string {
+	var out []string
+	for g := range o.results {
+		for i, r := range o.results[g] {
+			if strings.Contains(r, "PANIC:") {
+				out = append(out, fmt.Sprintf("\n  g%d op %d %s: %s", g, i, c.Programs[g][i], r))
+			}
+		}
+	}
+	if len(out) == 0 {
+		return ""
+	}
+	return "\noperations that panicked before:" + strings.Join(out, "")
 }
 
 // report prints a schedule-dependent failure so that the driver keeps it (rapid cannot re-create it).
@@ -1274,7 +1704,10 @@ var reported int32
 func opKinds(p []Op, into map[string]bool) {
 	for _, o := range p {
 		into[o.K] = true
-		if o.K == "tx" {
+		if o.S != 0 {
+			into["sessopt"] = true
+		}
+		if isBlock(o.K) {
 			opKinds(o.Sub, into)
 		}
 	}
@@ -1282,7 +1715,7 @@ func opKinds(p []Op, into map[string]bool) {
 
 func firstModel(p []Op) int {
 	o := p[0]
-	for o.K == "tx" {
+	for isBlock(o.K) {
 		o = o.Sub[0]
 	}
 	return o.M
@@ -1326,6 +1759,14 @@ func runCase(rt *rapid.T) {
 		cl = append(cl, "G:9-16")
 	default:
 		cl = append(cl, "G:17-32")
+	}
+	for _, n := range c.Cfg {
+		cl = append(cl, "cfg:"+n)
+	}
+	if c.Root != "" {
+		cl = append(cl, "shared-handle:"+c.Root)
+	} else {
+		cl = append(cl, "shared-handle:opened")
 	}
 	cl = append(cl, "cache:"+c.Warm, "prepare:"+map[bool]string{false: "off", true: "config"}[c.Prepare]+map[string]string{"": "", "call": "+session-per-call", "goroutine": "+session-per-goroutine"}[c.Sess], fmt.Sprintf("skipdefaulttx:%v", c.SkipTx), fmt.Sprintf("procs:%d", c.Procs), fmt.Sprintf("maxopen:%d", c.MaxOpen))
 	cold := c.Warm == "cold" || c.Warm == "one" || c.Warm == "targets"
